@@ -43,6 +43,7 @@ def run(chk, tier):
         from props import ctor
         ctor.reporter_storage(chk, F, 'R19.6', cfg)
         expected_pattern_lookup(chk, F, 'R19.7', cfg)
+        E.index_is_position(chk, F, 'R19.5.sel', cfg)
         ctor.matcher_storage(chk, F, 'R19.4.store', cfg)
     from xpand import rules as X
     X.check_traits(chk, tier, chk.seed, {'C19'})
